@@ -181,7 +181,7 @@ class C04(QueryBase):
 
 class C09(QueryBase):
     id = "C09"
-    modules = ["EG.Props.C09Table", "EG.Props.C09"]
+    modules = ["EG.Props.C09Table", "EG.Props.C09", "EG.Props.C09Unlink"]
     flinks = True
 
     def witnesses(self):
